@@ -44,12 +44,18 @@ import (
 //	     of a package of the program (read with go/parser) and the position is 0:0 with initialised package-level
 //	     variables in that package, or that of a function declaration/literal of that package; or the path is a file
 //	     of the case, the position is 0:0 and its package declares initialised package-level variables.
+//	template-initvars-no-position  the same synthetic function in TEMPLATES: the file-level variables of a template file that
+//	     is checked as a package (a file that extends — it becomes an import of its layout — or an imported file) are
+//	     initialised by a $initvars function built by emitPackage with the file's path but an empty position: an excess
+//	     in the initialisers reads `index.html:0:0`. culprit test: a template build; message `<kind> count exceeded <n>`;
+//	     position 0:0; the path is a file of the case that declares file-level variables with initialisers (read with a
+//	     regular expression) and that extends or is imported by a file of the case (path resolved against the referrer).
 type findingClass struct {
 	id      string
 	explain func(b lexh.BuildCase, r lexh.BuildResult, clause string) bool
 }
 
-var extendsRe = regexp.MustCompile(`\{%-?\s*extends\s*"([^"]+)"`)
+var extendsRe = regexp.MustCompile(`\{%%?-?\s*extends\s*"([^"]+)"`)
 var scopeMsgRe = regexp.MustCompile(`^(?:(?:break|continue|goto) label not defined: (\w+)|label (\w+) not defined|label (\w+) defined and not used|goto (\w+) jumps (?:into|over) .*)$`)
 
 func fileOf(b lexh.BuildCase, p string) ([]byte, bool) {
@@ -65,7 +71,7 @@ func posIn(data []byte, r lexh.BuildResult) bool {
 	return l == r.Line && (!utf8.Valid(data) || c == r.Col)
 }
 
-var limitMsgRe = regexp.MustCompile(`^[a-z ]+ count exceeded \d+$`)
+var limitMsgRe = regexp.MustCompile(`^[A-Za-z][A-Za-z -]* count exceeded \d+$`)
 
 // packageHasVars reports whether a Go file of the case belongs to the package named pkg
 // and declares a package-level variable (read with go/parser).
@@ -91,7 +97,42 @@ func packageHasVars(b lexh.BuildCase, pkg string) bool {
 	return false
 }
 
+var tmplVarRe = regexp.MustCompile(`(?:\{%%?-?|\n|;)\s*var\s+\w+[^=%\n]*=`)
+var tmplImportRe = regexp.MustCompile(`(?:\{%%?-?|\n|;)\s*import\s*(?:\w+\s+|\.\s*)?"([^"]+)"`)
+
+// templateIsPackage reports whether the template file name of the case is checked as a package: it
+// extends, or a file of the case imports it (the written path resolved against the importing file).
+func templateIsPackage(b lexh.BuildCase, name string) bool {
+	if extendsRe.Match(b.Files[name]) {
+		return true
+	}
+	for n, d := range b.Files {
+		for _, m := range tmplImportRe.FindAllSubmatch(d, -1) {
+			p := string(m[1])
+			if strings.HasPrefix(p, "/") {
+				p = p[1:]
+			} else {
+				p = path.Join(path.Dir(n), p)
+			}
+			if p == name {
+				return true
+			}
+		}
+	}
+	return false
+}
+
 var findingClasses = []findingClass{
+	{"template-initvars-no-position", func(b lexh.BuildCase, r lexh.BuildResult, clause string) bool {
+		if b.Program() || !limitMsgRe.MatchString(r.Msg) || clause == "path-is-a-file-the-build-read" {
+			return false
+		}
+		if r.Line != 0 || r.Col != 0 || r.Start != 0 || r.End != 0 {
+			return false
+		}
+		d, ok := b.Files[r.Path]
+		return ok && tmplVarRe.Match(d) && templateIsPackage(b, r.Path)
+	}},
 	{"limit-error-location", func(b lexh.BuildCase, r lexh.BuildResult, clause string) bool {
 		if !limitMsgRe.MatchString(r.Msg) {
 			return false
@@ -298,6 +339,32 @@ func classProbes() []classProbe {
 		}
 		p("limit-error-location", true, "main.go", "package main\n"+vars(200, "var v# string\n")+"func main() {}\n")
 		p("limit-error-location", true, "go.mod", "module m\n", "main.go", "package main\nimport _ \"m/a\"\nfunc main() {}\n", "a/a.go", "package a\n"+vars(128, "var v# = \"s#\"\n"))
+	}
+	// template-initvars-no-position: n file-level string variables around the limit of 127 in a file that extends, in an
+	// imported file (plain, rooted and relative spelling), and — controls — in a rendered file, in the built file, inside a
+	// macro of an imported file (reported at the macro), under the limit
+	{
+		vars := func(n int, f string) string {
+			var sb strings.Builder
+			for i := 0; i < n; i++ {
+				sb.WriteString(strings.ReplaceAll(f, "#", strconv.Itoa(i)))
+			}
+			return sb.String()
+		}
+		for _, f := range []string{"{% var v# = \"s#\" %}\n", "{% var v# = []int{#} %}\n"} {
+			for _, n := range []int{128, 200} {
+				t("template-initvars-no-position", true, "index.html", "index.html", "{% extends \"layout.html\" %}\n"+vars(n, f), "layout.html", "<p>\n")
+				t("template-initvars-no-position", true, "a/index.html", "a/index.html", "{%% extends \"../l/layout.html\" %%}\n"+vars(n, f), "l/layout.html", "<p>\n")
+				t("template-initvars-no-position", true, "index.html", "index.html", "{% import \"i.html\" %}\n", "i.html", "\n"+vars(n, f))
+				t("template-initvars-no-position", true, "a/index.html", "a/index.html", "{% import \"/b/i.html\" %}\n", "b/i.html", vars(n, f))
+				t("template-initvars-no-position", true, "a/index.html", "a/index.html", "{%% import \"s/i.html\" %%}\n", "a/s/i.html", vars(n, f))
+				t("template-initvars-no-position", false, "index.html", "index.html", "{{ render \"r.html\" }}\n", "r.html", vars(n, f))
+				t("template-initvars-no-position", false, "index.html", "index.html", "<p>\n"+vars(n, f))
+			}
+			t("template-initvars-no-position", false, "index.html", "index.html", "{% extends \"layout.html\" %}\n"+vars(100, f), "layout.html", "<p>\n")
+			t("template-initvars-no-position", false, "index.html", "index.html", "{% import \"i.html\" %}\n", "i.html", vars(100, f))
+			t("template-initvars-no-position", false, "index.html", "index.html", "{% import \"i.html\" %}\n", "i.html", "{% macro M %}"+vars(200, f)+"{% end %}")
+		}
 	}
 	// using-error-in-other-file: a using statement (itea used or not) x a render before it, in its body, after it;
 	// the using statement in the built file or in a rendered file that renders a third file; padding so
